@@ -53,7 +53,7 @@ func c02Check(c docCase) error {
 		cache[o] = b
 		return b
 	}
-	for _, cfg := range parseCfgs() {
+	for _, cfg := range parseCfgsSib(c.In) {
 		in := append([]byte(nil), c.In...)
 		pj, err := parseWith(cfg, in, false)
 		if err != nil {
